@@ -78,15 +78,24 @@ func VerifVCAgree() {
 	if len(p) == 0 && m < n {
 		rt.Assert(err != nil, "VC/empty-proof-rejected")
 	}
+	if m < n {
+		rt.Assert(err != nil || len(p) == rt.VCWantLen(uint64(m), uint64(n)), "VC/length-rule")
+	}
 }
 
 // VerifVCEdge checks the size-only decisions of VerifyConsistency for all 64-bit sizes.
 func VerifVCEdge() {
 	s1, s2 := rt.U64("s1"), rt.U64("s2")
 	r1, r2 := rt.Bytes("r1"), rt.Bytes("r2")
-	which := rt.Choose(3)
+	which := rt.Choose(4)
 	var p [][]byte
 	switch which {
+	case 3:
+		// the length rule of the summary: any other length is refused before a hash is looked at
+		rt.Assume(0 < s1 && s1 < s2)
+		p = verifFreeProof(rt.Param("edgeproof", 5))
+		rt.Assume(len(p) != rt.VCWantLen(s1, s2))
+		rt.Assert(proof.VerifyConsistency(rfc6962.DefaultHasher, s1, s2, p, r1, r2) != nil, "VC/length-rule-64bit")
 	case 0:
 		rt.Assume(s2 < s1)
 		p = verifFreeProof(2)
@@ -102,6 +111,7 @@ func VerifVCEdge() {
 		rt.Assert(proof.VerifyConsistency(rfc6962.DefaultHasher, s1, s2, p, r1, r2) != nil, "VC/from-empty-rejected")
 	}
 	rt.Cover(which == 2, "vc/edge")
+	rt.Cover(which == 3 && len(p) == 3, "vc/edge-length-rule")
 }
 
 // verifReader is a tlog.HashReader over the leaf hashes of one tree: the stored
